@@ -46,7 +46,7 @@ let check (case : Sexp.t) (res : Sexp.t) : [ `Ok | `Mismatch of string | `Proper
   | _, L [ A "panic"; m ] -> (`Property ("panic " ^ atom m), true)
   | L [ A "pair"; _; _; A tag ], L [ A "pair"; ra; rb ] ->
     (match ra, rb with
-     | L [ A "rejected"; _ ], L [ A "rejected"; _ ] -> (`Ok, false)
+     | L (A "rejected" :: _), L (A "rejected" :: _) -> (`Ok, false)
      | L [ A "accepted"; tya; eva ], L [ A "accepted"; _; evb ] ->
        (match eva, evb with
         | L [ A "value"; va ], L [ A "value"; vb ] ->
@@ -58,11 +58,15 @@ let check (case : Sexp.t) (res : Sexp.t) : [ `Ok | `Mismatch of string | `Proper
         | L [ A "stuck"; _ ], L [ A "stuck"; _ ] -> (`Ok, true)
         | A "noeval", A "noeval" -> (`Ok, true)
         | _ -> (`Property ("the rewrite (" ^ tag ^ ") turns a value into a stuck term or vice versa"), true))
-     | L [ A "accepted"; tya; _ ], L [ A "rejected"; _ ] ->
-       (* recorded finding D15: the named subexpression's reported type contains an unsolved hole *)
-       let sg = if has_hole_sx tya && (tag = "name-subexpression-with-hole") then " sig=D15-named-subexpression-with-hole" else "" in
+     | L [ A "accepted"; tya; _ ], L (A "rejected" :: _ :: rest) ->
+       (* recorded finding D15: the named subexpression's reported type contains an unsolved hole;
+          recorded finding D9: while the rewritten program was checked, `open` copied an unsolved hole (the type
+          of a group whose body's type is still a hole), so a later constraint solved the copy *)
+       let opened = (match rest with [ L (A "hooks" :: oh :: _) ] -> int oh | _ -> 0) in
+       let sg = if has_hole_sx tya && (tag = "name-subexpression-with-hole") then " sig=D15-named-subexpression-with-hole"
+         else if opened > 0 then " sig=D9-hole-copied-by-open" else "" in
        (`Property ("the rewrite (" ^ tag ^ ") turns acceptance into rejection" ^ sg), true)
-     | L [ A "rejected"; _ ], L [ A "accepted"; _; _ ] -> (`Property ("the rewrite (" ^ tag ^ ") turns rejection into acceptance"), true)
+     | L (A "rejected" :: _), L [ A "accepted"; _; _ ] -> (`Property ("the rewrite (" ^ tag ^ ") turns rejection into acceptance"), true)
      | _ -> (`Mismatch "unrecognised pair", false))
   | _, L [ A ("timeout" | "abort") ] -> (`Ok, false)
   | _ -> (`Mismatch ("unrecognised " ^ Sexp.to_string res), false)
